@@ -178,7 +178,7 @@ pub fn update_read() {
 }
 
 /// C16-S2: chains of successive versions of one flattened array, any cache capacity.
-/// params: [k orders, chain length, 0 = commit at the end, 1 = commit after each version, 2 = commit the first version only, then unstage]
+/// params: [k orders, chain length, 0 = commit at the end, 1 = commit after each version, 2 = commit the first two versions only, stage the rest, then unstage]
 pub fn array_chain() {
     let k = sym::param(0) as usize;
     let n = sym::param(1) as usize;
@@ -204,21 +204,21 @@ pub fn array_chain() {
         a.m.update(d.clone()).expect("update");
         let r = a.m.read(None).expect("read");
         assert!(reads_back(&r, &d), "stored array version does not reconstruct to the submitted array");
-        if commit_each || (sym::param(2) == 2 && i == 0) {
+        if commit_each || (sym::param(2) == 2 && i < 2) {
             a.m.commit(None).expect("commit");
             assert!(reads_back(&a.m.read(None).expect("read"), &d), "commit changed the reconstructed array");
         }
-        if i == 0 {
+        if i == 1 || (i == 0 && n == 1) {
             first = Some(d.clone());
         }
         last = d;
     }
     if sym::param(2) == 2 {
-        // versions 2..n were staged on top of the committed first version: discarding them must show it again
+        // versions 3..n were staged on top of the committed second version: discarding them must show it again
         if let Some(f) = &first {
             let mut a = a;
             a.m.unstage().expect("unstage");
-            assert!(reads_back(&a.m.read(None).expect("read after unstage"), f), "first (committed) array version does not reconstruct after unstage");
+            assert!(reads_back(&a.m.read(None).expect("read after unstage"), f), "last committed array version does not reconstruct after unstage");
             a.m.update(last.clone()).expect("update");
             assert!(reads_back(&a.m.read(None).expect("read"), &last), "array version does not reconstruct when staged again");
         }
